@@ -285,6 +285,20 @@ __CPROVER_ensures(VF_T(VF_WIT_IN(gB.o, g_bufB, src, nbytes) ==>
         /* clang-format on */
         ;
 
+/* some instances call the fixed-length variant with a run-time length */
+static inline void
+memcpy_sse_fixedlen(void *dst, const void *src, size_t nbytes)
+        /* clang-format off */
+__CPROVER_requires(nbytes <= 2 * VF_BLOCK)
+__CPROVER_requires(__CPROVER_r_ok(src, nbytes) && __CPROVER_w_ok(dst, nbytes))
+__CPROVER_assigns(__CPROVER_object_upto(dst, nbytes))
+__CPROVER_ensures(VF_T(VF_WIT_IN(gA.o, g_bufA, src, nbytes) ==>
+                  ((const uint8_t *) dst)[gA.o - VF_OFF(src)] == g_bufA[gA.o]))
+__CPROVER_ensures(VF_T(VF_WIT_IN(gB.o, g_bufB, src, nbytes) ==>
+                  ((const uint8_t *) dst)[gB.o - VF_OFF(src)] == g_bufB[gB.o]))
+        /* clang-format on */
+        ;
+
 /* ---------------------------------------------------------------------- */
 /* Contracts of the functions of the file itself                            */
 /* ---------------------------------------------------------------------- */
@@ -330,8 +344,9 @@ static const VF_WORD_T vf_iv[VF_NWORDS] = { VF_IVLIST };
 
 /* The harness allocates mgr, g_A, g_B, g_bufA (g_lenA bytes), g_bufB (g_lenB bytes) as
  * distinct exact-size heap objects; the requires below only relate arguments to them. */
-#define VF_COMMON_REQ                                                                              \
-        __CPROVER_requires(g_n < g_lanes && g_W < VF_NWORDS && VF_W(g_work < (1ull << 32)))
+#define VF_COMMON_REQ_(bits)                                                                       \
+        __CPROVER_requires(g_n < g_lanes && g_W < VF_NWORDS && VF_W(g_work < (1ull << (bits))))
+#define VF_COMMON_REQ VF_COMMON_REQ_(32)
 
 #define VF_GHOST_FRAME vfG
 
@@ -350,7 +365,7 @@ static const VF_WORD_T vf_iv[VF_NWORDS] = { VF_IVLIST };
         } while (0)
 
 #define VF_C_RESUBMIT                                                                              \
-        VF_COMMON_REQ                                                                              \
+        VF_COMMON_REQ_(33)                                                                         \
         __CPROVER_requires(ctx == g_held && (ctx == NULL || ctx == g_A || ctx == g_B))             \
         __CPROVER_requires(ctx == g_A ==> VF_HELD_A)                                               \
         __CPROVER_requires(ctx == g_B ==> VF_HELD_B)                                               \
@@ -378,7 +393,7 @@ static const VF_WORD_T vf_iv[VF_NWORDS] = { VF_IVLIST };
         __CPROVER_ensures(VF_W(g_work <= __CPROVER_old(g_work) + VF_WORK_OLD_OF(ctx)))
 
 #define VF_L_RESUBMIT                                                                              \
-        __CPROVER_assigns(ctx, __CPROVER_object_whole(mgr), __CPROVER_object_whole(g_A),           \
+        __CPROVER_assigns(ctx VF_LOOP_EXTRA, __CPROVER_object_whole(mgr), __CPROVER_object_whole(g_A),           \
                           __CPROVER_object_whole(g_B), VF_GHOST_FRAME)                             \
         __CPROVER_loop_invariant(ctx == g_held && (ctx == NULL || ctx == g_A || ctx == g_B))       \
         __CPROVER_loop_invariant(ctx == g_A ==> VF_HELD_A)                                         \
@@ -391,7 +406,7 @@ static const VF_WORD_T vf_iv[VF_NWORDS] = { VF_IVLIST };
                                                  (__CPROVER_loop_entry(gA.inflight) != 0)))        \
         __CPROVER_loop_invariant(g_A->error == __CPROVER_loop_entry(g_A->error) &&                 \
                                  g_A->total_length == __CPROVER_loop_entry(g_A->total_length))     \
-        __CPROVER_loop_invariant(g_n < g_lanes && VF_W(g_work < (1ull << 33)))                           \
+        __CPROVER_loop_invariant(g_n < g_lanes && VF_W(g_work < (1ull << 34)))                           \
         __CPROVER_loop_invariant(ctx != NULL ==> g_n == __CPROVER_loop_entry(g_n))                 \
         __CPROVER_loop_invariant((ctx == NULL && __CPROVER_loop_entry(ctx) != NULL) ==>            \
                                  g_n == __CPROVER_loop_entry(g_n) + 1)                             \
